@@ -9,7 +9,7 @@ import time
 def build_probes(verif, repo):
     rdir = os.path.join(verif, "replay")
     lock = os.path.join(repo, "Cargo.lock")
-    env = dict(os.environ, CARGO_NET_OFFLINE="true", CARGO_TARGET_DIR=os.path.join(rdir, "target"))
+    env = dict(os.environ, CARGO_NET_OFFLINE="true", CARGO_TARGET_DIR=os.path.join(rdir, "target"), RUSTFLAGS="--cfg jsonrpsee_verif")
     if os.path.exists(lock) and not os.path.exists(os.path.join(rdir, "Cargo.lock")):
         import shutil
         shutil.copy(lock, os.path.join(rdir, "Cargo.lock"))
